@@ -29,8 +29,12 @@ macro "doc_simp" : tactic => `(tactic|
       Mode.pilChannels, Mode.nbands, applyRoutes, traverse, Route.apply, Px.view, Function.comp_def,
       List.range, List.range.loop, Meta.transparencyIndex, firstZero, pyIndex, Image.invert])
 
+/-- laws at every depth give the laws at each depth -/
+theorem Px.Lawful.at {P : Px α σ} (h : P.Lawful) (d : Nat) : P.LawfulAt d :=
+  ⟨h.inv_inv, h.load_store d⟩
+
 /-- `topil()` of a freshly imported document, for an image that needs no normalisation -/
-theorem doc_core (C : Pil α) (P : Px α σ) (hP : P.Lawful) (img : Image α) (hwf : img.WF)
+theorem doc_core (C : Pil α) (P : Px α σ) (hP : P.LawfulAt 8) (img : Image α) (hwf : img.WF)
     (h1 : img.mode ≠ .one) (h2 : img.mode ≠ .RGBA) :
     exportDocPil P (docImport C P img).1 (docImport C P img).2 = .ok (some img) := by
   have hls := hP.load_store
@@ -51,7 +55,7 @@ theorem doc_core (C : Pil α) (P : Px α σ) (hP : P.Lawful) (img : Image α) (h
 
 /-- `topil()` of a freshly imported RGBA document: the white background is "removed" from
 colour planes that were stored as they came. -/
-theorem doc_core_rgba (C : Pil α) (P : Px α σ) (hP : P.Lawful) (w h : Nat) (r g b a : List α) :
+theorem doc_core_rgba (C : Pil α) (P : Px α σ) (hP : P.LawfulAt 8) (w h : Nat) (r g b a : List α) :
     let img : Image α := { mode := .RGBA, width := w, height := h, bands := [r, g, b, a] }
     exportDocPil P (docImport C P img).1 (docImport C P img).2 = .ok (some
       { img with bands := [List.zipWith P.unmatte r a, List.zipWith P.unmatte g a,
@@ -68,8 +72,8 @@ macro "lay_simp" : tactic => `(tactic|
 
 /-- export ∘ (the layer import after the conversion), for a converted image of a mode the
 document can have -/
-theorem layer_converted (P : Px α σ) (hP : P.Lawful) (alpha : Option (List α)) (j : Image α) (hj : j.WF)
-    (hdr : Header) (hb : hdr.cmode ≠ .bitmap) (al : Bool) (hm : j.mode = hdr.cmode.pilMode al)
+theorem layer_converted (P : Px α σ) (hdr : Header) (hP : P.LawfulAt hdr.depth) (alpha : Option (List α)) (j : Image α) (hj : j.WF)
+    (hb : hdr.cmode ≠ .bitmap) (al : Bool) (hm : j.mode = hdr.cmode.pilMode al)
     (top left : Int) :
     ∃ l, layerOfConverted P alpha j hdr.depth top left = .ok l ∧
       (l.top, l.left, l.bottom, l.right) = (top, left, top + j.height, left + j.width) ∧
